@@ -7,7 +7,7 @@ Outputs are expected in /tmp/mut_<PID>_out<round>/<k>/{patch.diff,demo.py,meta.j
 import glob, json, os, subprocess, sys
 V = os.path.dirname(os.path.dirname(os.path.abspath(__file__)))
 rnd = sys.argv[1]
-ORD = {"2": "SECOND", "3": "THIRD", "4": "FOURTH", "5": "FIFTH", "6": "SIXTH"}.get(rnd, rnd + "th")
+ORD = {"2": "SECOND", "3": "THIRD", "4": "FOURTH", "5": "FIFTH", "6": "SIXTH", "7": "SEVENTH"}.get(rnd, rnd + "th")
 recs = {json.loads(l)["id"]: json.loads(l) for l in open(os.path.join(V, "properties.jsonl"))}
 head = open(os.path.join(V, "tools", "prompts", "mutant_head.txt")).read()
 for pid in sys.argv[2:]:
